@@ -13,6 +13,9 @@ import ast
 from ..core import AnalysisError
 from ..core import RuleResult
 from ..core import norm
+from ..flow import BaseState
+from ..flow import Domain
+from ..flow import Interp
 from ..linear import canon
 from ..linear import lin_eq
 from ..linear import parse_expr
@@ -347,61 +350,161 @@ def rule_empty(model):
     return r
 
 
-def _push_chain(fi, lp):
-    """The per-item statements from the 2-tuple split to the push decision."""
+def _push_fragment(model, fi, lp):
+    """Per-item statements from the element type test up to (excluding) the
+    statement that renders the section."""
     out = []
     take = False
     for st in lp.body:
-        s = norm(st)
-        if isinstance(st, ast.Assign) and 'type(client)' in s:
+        if any(isinstance(c, ast.Call) and '_DocumentTemplate:render_blocks'
+               in model.callee_names(c, fi) for c in ast.walk(st)):
+            break
+        if isinstance(st, ast.Assign) and 'type(client)' in norm(st):
             take = True
         if take:
             out.append(st)
-        if isinstance(st, ast.If) and 'no_push_item' in norm(st.test):
-            break
     return out
+
+
+class _TS(BaseState):
+    __slots__ = ('pushes', 'split', 'trace', 'cur_exc')
+
+    def __init__(self, pushes=(), split=False):
+        self.pushes = pushes
+        self.split = split
+        self.trace = ()
+        self.cur_exc = None
+
+    def key(self):
+        return (self.pushes, self.split)
+
+    def copy(self):
+        n = _TS(self.pushes, self.split)
+        n.trace = self.trace
+        return n
+
+
+class _TableDomain(Domain):
+    """Evaluates the push decision under one truth assignment of the atoms
+    no_push_item / mapping / text element / 2-tuple element."""
+
+    def __init__(self, assign):
+        self.assign = assign
+
+    def atom(self, test):
+        t = norm(test)
+        table = {'no_push_item': 'npi', 'mapping': 'mapping',
+                 't in StringTypes': 'text',
+                 'isinstance(client, StringTypes)': 'text'}
+        if t in table:
+            return self.assign[table[t]]
+        if t == 't not in StringTypes':
+            return not self.assign['text']
+        if 'len(client) == 2' in t:
+            return self.assign['pair']
+        if t in ('t is TupleType', 't is tuple',
+                 'isinstance(client, tuple)'):
+            return self.assign['pair']
+        return None
+
+    def branch(self, test, st):
+        v = self.atom(test)
+        if v is None:
+            return [(True, st), (False, st)]
+        return [(v, st)]
+
+    def effects(self, stmt, st):
+        ns = st
+        for n in ast.walk(stmt):
+            if isinstance(n, ast.Call) and n.args and \
+                    norm(n.func) in ('push', 'md._push'):
+                a = norm(n.args[0])
+                kind = 'element' if a == 'client' else (
+                    'InstanceDict' if a == 'InstanceDict(client, md)'
+                    else 'other:' + a)
+                ns = _TS(ns.pushes + (kind,), ns.split)
+            if isinstance(n, ast.Assign) and norm(n) == 'client = client[1]':
+                ns = _TS(ns.pushes, True)
+        return ns
+
+
+def _decision_table(model, fi, lp):
+    import itertools
+    frag = _push_fragment(model, fi, lp)
+    if not frag:
+        raise AnalysisError(f'{fi.where}: per-item push decision not found')
+    table = {}
+    for npi, mapping, text, pair in itertools.product([False, True],
+                                                      repeat=4):
+        dom = _TableDomain({'npi': npi, 'mapping': mapping, 'text': text,
+                            'pair': pair})
+        outs = Interp(dom).block(frag, _TS())
+        res = sorted({(o.state.pushes, o.state.split) for o in outs
+                      if o.kind == 'normal'})
+        table[(npi, mapping, text, pair)] = res
+    return frag, table
 
 
 def rule_twins(model):
     r = RuleResult('C10.R5', 'what is pushed per item (nothing / the mapping '
-                   '/ nothing for text / InstanceDict of the element) is '
-                   'decided identically by both renderers')
+                   '/ nothing for text / InstanceDict of the element) and '
+                   'the (key, item) split are decided identically by both '
+                   'renderers')
     (fa, la), (fb, lb) = _loops(model)
-    ca, cb = _push_chain(fa, la), _push_chain(fb, lb)
-    r.instance(fa.where, ' ; '.join(norm(s) for s in ca)[:150])
-    r.instance(fb.where, ' ; '.join(norm(s) for s in cb)[:150])
-    if not ca or not cb:
-        raise AnalysisError('C10.R5: per-item push decision not found')
-    if canon(ca) != canon(cb):
+    fra, ta = _decision_table(model, fa, la)
+    frb, tb = _decision_table(model, fb, lb)
+    r.instance(fa.where, ' ; '.join(norm(s) for s in fra)[:150])
+    r.instance(fb.where, ' ; '.join(norm(s) for s in frb)[:150])
+    if ta != tb:
+        diff = [k for k in ta if ta[k] != tb[k]]
         r.finding(fb.where, 'per-item push decision', 'the batched and the '
                   'unbatched renderer disagree on what is pushed for an '
-                  'item', node=cb[0], ctx=fb)
-    # the decision itself
-    chain = ca[-1]
-    order = []
-    cur = chain
-    while isinstance(cur, ast.If):
-        order.append(norm(cur.test))
-        cur = cur.orelse[0] if len(cur.orelse) == 1 and \
-            isinstance(cur.orelse[0], ast.If) else None
-    want = ['no_push_item', 'mapping', 't in StringTypes']
-    r.instance(fa.where, ' / '.join(order), 'decision order')
-    if order != want:
-        r.finding(fa.where, 'push decision order ' + ' / '.join(order),
-                  'the per-item push decision is not no_push_item / '
-                  'mapping / text / object', node=chain, ctx=fa)
-    src = ast.unparse(chain)
-    if 'push(InstanceDict(client, md))' not in src or \
-            'push(client)' not in src:
-        r.finding(fa.where, 'pushed values', 'the element itself (mapping) '
-                  'or its InstanceDict (object) is not what gets pushed',
-                  node=chain, ctx=fa)
-    # 2-tuple split
-    split = [s for s in ca if isinstance(s, ast.If)
-             and 'len(client) == 2' in norm(s.test)]
-    if not split or norm(split[0].body[0]) != 'client = client[1]':
-        r.finding(fa.where, '2-tuple split', 'a (key, item) pair is not '
-                  'split into its item before pushing', node=ca[0], ctx=fa)
+                  f'item (cases no_push_item/mapping/text/pair {diff[:3]})',
+                  node=frb[0], ctx=fb)
+    for (npi, mapping, text, pair), res in sorted(ta.items()):
+        if npi:
+            want = ()
+        elif mapping:
+            want = ('element',)
+        elif text:
+            want = ()
+        else:
+            want = ('InstanceDict',)
+        ok = res == [(want, pair)]
+        if not ok:
+            r.finding(fa.where, f'push decision for no_push_item={npi} '
+                      f'mapping={mapping} text={text} pair={pair}',
+                      f'pushes {res} instead of {want} (with the (key, '
+                      f'item) pair split={pair}): element attributes / keys '
+                      'are (in)visible in the body contrary to the '
+                      'documented options', node=fra[0], ctx=fa)
+    r.instance(fa.where, f'{len(ta)} option combinations evaluated',
+               'decision table')
+    # per-item variables: the (key, item) pair is split before the item is
+    # read by name
+    val = model.func('DT_InSV', 'sequence_variables.value')
+    split_i = read_i = None
+    for i, st in enumerate(val.node.body):
+        if isinstance(st, ast.If) and 'len(item) == 2' in norm(st.test) \
+                and split_i is None:
+            split_i = i
+        reads = any(
+            (isinstance(x, ast.Subscript) and norm(x.value) == 'item' and
+             norm(x.slice) == val.params()[2]) or
+            (isinstance(x, ast.Call) and norm(x.func) == 'getattr' and
+             x.args and norm(x.args[0]) == 'item')
+            for x in ast.walk(st))
+        if reads and read_i is None:
+            read_i = i
+    r.instance(val.where, f'split @{split_i}, read by name @{read_i}')
+    if split_i is None or read_i is None:
+        raise AnalysisError('sequence_variables.value: split / read not '
+                            'found')
+    if read_i <= split_i:
+        r.finding(val.where, 'item read before the pair split', 'the '
+                  'element is read by name before a (key, item) pair is '
+                  'split: sequence-var-x / first-x / last-x fail or read '
+                  'the pair for 2-tuple elements', node=val.node, ctx=val)
     return r
 
 
